@@ -30,6 +30,8 @@ structure Cl where
   hadAtBegin : Bool := false
   val : String := ""
   sidAtBegin : Nat := 0
+  ephAncestorAtBegin : Bool := false
+  lostInOp : Bool := false                  -- a reply of this operation was lost: the retry wrapper re-sent the request
 
 structure St where
   srv : Server := {}
@@ -149,8 +151,11 @@ def contract (cl : Cl) (res : String) (srv : Server) : List (String × String) :
         | none => [("C15:set-ok-but-key-missing", s!"{cl.full}")]
       else []
     | none =>
-      if res == "ok" && !((List.range (cl.path.length + 1)).all fun k => srv.has (cl.path.take k)) then
-        [("C15:set-ok-but-an-ancestor-is-missing", s!"{cl.full}")] else []
+      (if res == "ok" && !((List.range (cl.path.length + 1)).all fun k => srv.has (cl.path.take k)) then
+        [("C15:set-ok-but-an-ancestor-is-missing", s!"{cl.full}")] else []) ++
+      -- set creates missing parents: on a missing key below plain ancestors it must succeed
+      (if res != "ok" && !cl.ephAncestorAtBegin && !cl.lostInOp && !(res.startsWith "err:connClosed" || res.startsWith "err:sessionExpired") then
+        [("C15:set-did-not-create-the-key-and-its-missing-parents", s!"{cl.full}: {res}")] else [])
   | _ => []
 
 def handle : Handler := fun j a => do
@@ -212,7 +217,7 @@ def handle : Handler := fun j a => do
         let full := buildFullPath ns spelled
         let p := pathOf full
         let mut cl := { cl with op := op, full := full, path := p, opid := (jInt e "opid").toOption.getD 0, free := false,
-                                sidAtBegin := cl.sid, envAtBegin := st.env, existedAtBegin := st.srv.find? p, hadAtBegin := st.srv.has p, val := val }
+                                lostInOp := false, sidAtBegin := cl.sid, ephAncestorAtBegin := ((List.range p.length).any fun k => match st.srv.find? (p.take k) with | some n => n.owner != 0 | none => false), envAtBegin := st.env, existedAtBegin := st.srv.find? p, hadAtBegin := st.srv.has p, val := val }
         if op == "tree" then
           cl := { cl with free := true, prog := none }
         else if op == "acquire" then
@@ -283,7 +288,7 @@ def handle : Handler := fun j a => do
             | some k =>
               if fate == "lost" then
                 -- the client sees a closed connection: stay at this call (re-sent or handled at the next event)
-                st := setCl st { cl with prog := some (.call pr k) }
+                st := setCl st { cl with prog := some (.call pr k), lostInOp := true }
               else st := setCl st { cl with prog := some (k real) }
             | none =>
               a := a.mismatch s!"zk client {c} op {cl.op} {cl.full}: real primitive {repr pr} is not what the model program calls next in {ctx}"
